@@ -1,6 +1,6 @@
 (* C02 — pairwise disjointness of the ISA-database rows (statement + proof from the generated reflection lemma). *)
 From Coq Require Import ZArith List Bool.
-From Verif Require Import A64.A64Tmpl A64.A64TmplProofs A64.A64Sem A64.A64SemProofs.
+From Verif Require Import A64.A64Tmpl A64.A64TmplProofs A64.A64Sem A64.A64SemProofs A64.A64InvProofs.
 From VerifGen Require Import IsaA64Db IsaA64Disjoint.
 Import ListNotations.
 Local Open Scope Z_scope.
@@ -30,3 +30,25 @@ Proof.
   exact (fixed_conflict_disjoint _ _ _ _ w w F1 F2 C eq_refl).
 Qed.
 Print Assumptions C02_rows_disjoint.
+
+(* Instruction-level lift of C02_rows_disjoint (round 7): if the specification answers the SAME single word for two mnemonic / operand
+   lists, the two answering rows are the same row id or one of the recorded alias pairs - a word identifies its instruction form up to the
+   recorded aliases (CMP / SUBS XZR, ...), whatever the mnemonics and operands were. *)
+Theorem C02_inst_word_determines_row : forall mn1 ops1 id1 mn2 ops2 id2 w,
+  spec_a64_rows rows alt_table mn1 ops1 = Some (id1, [w]) -> spec_a64_rows rows alt_table mn2 ops2 = Some (id2, [w]) ->
+  id1 = id2 \/ in_overlap overlap_pairs id1 id2 = true.
+Proof.
+  intros mn1 ops1 id1 mn2 ops2 id2 w H1 H2.
+  destruct (spec_a64_from_row rows alt_table mn1 ops1 id1 [w] H1) as (r1 & w1 & I1 & E1 & W1 & S1 & _).
+  destruct (spec_a64_from_row rows alt_table mn2 ops2 id2 [w] H2) as (r2 & w2 & I2 & E2 & W2 & S2 & _).
+  inversion W1; subst w1. inversion W2; subst w2. subst id1 id2.
+  exact (C02_rows_disjoint r1 r2 ops1 ops2 w I1 I2 S1 S2).
+Qed.
+Print Assumptions C02_inst_word_determines_row.
+(* non-vacuity: CMP x2, x3 (mnemonic 108) and SUBS xzr, x2, x3 (mnemonic 796) are answered with the same word by two DIFFERENT rows, which
+   are a recorded pair - the second alternative of the theorem is real at instruction level *)
+Example ex_inst_same_word : exists id1 id2,
+  spec_a64_rows rows alt_table 108 [OGp true 2; OGp true 3] = Some (id1, [3942842463]) /\
+  spec_a64_rows rows alt_table 796 [OGp true 63; OGp true 2; OGp true 3] = Some (id2, [3942842463]) /\
+  (id1 =? id2) = false /\ in_overlap overlap_pairs id1 id2 = true.
+Proof. vm_compute. do 2 eexists. repeat split; reflexivity. Qed.
